@@ -34,7 +34,11 @@ type Ctx struct {
 	// replay check: labels/arity recorded for the prefix by the previous run
 	expect   []point
 	diverged string
+	// sharding: an execution whose first `depth` choices belong to another worker is abandoned at once
+	depth, shard, nshards int
 }
+
+type unownedAbort struct{}
 
 func lab(s string) uint32 {
 	h := fnv.New32a()
@@ -64,6 +68,9 @@ func (c *Ctx) choose(n int, label string, dev bool) int {
 	c.pts = append(c.pts, point{n: n, pick: pick, dev: dev, label: lab(label)})
 	if c.trace {
 		c.labels = append(c.labels, label+"="+strconv.Itoa(pick))
+	}
+	if c.nshards > 1 && len(c.pts) == c.depth && !owns(c.Choices(), c.depth, c.shard, c.nshards) {
+		panic(unownedAbort{}) // recovered by Explore: this subtree is another worker's
 	}
 	return pick
 }
@@ -183,8 +190,17 @@ func Explore(opt Options, body func(c *Ctx) bool) Stats {
 			// reproduce the recorded choice points, the run is repeated; if it never does,
 			// the divergent run is accepted as an execution in its own right and counted.
 			for attempt := 0; ; attempt++ {
-				c = &Ctx{prefix: prefix, expect: expect, trace: opt.Trace}
-				cont = body(c)
+				c = &Ctx{prefix: prefix, expect: expect, trace: opt.Trace, depth: depth, shard: opt.Shard, nshards: opt.NShards}
+				func() {
+					defer func() {
+						if r := recover(); r != nil {
+							if _, ok := r.(unownedAbort); !ok {
+								panic(r)
+							}
+						}
+					}()
+					cont = body(c)
+				}()
 				if c.diverged == "" || !cont {
 					break
 				}
